@@ -169,6 +169,25 @@ fn frames() -> Vec<Frame> {
     }
     shapes.push((Some("org.varlink.service.Bogus"), None, "unknown name in the standard namespace"));
     let mut out = Vec::new();
+    // an `error` member whose value is not a string (a peer that writes every member out and uses
+    // null for those that do not apply, or a broken one): the reply carries an error member, so it
+    // is never a success, and no error type recognises it
+    for (odd, oddname) in [(Value::Null, "null"), (json!(7), "a number"), (json!(true), "a boolean"), (json!({}), "an empty object"), (json!(["a.Unit"]), "an array holding a declared name"), (json!({"a.Unit": {}}), "an object")] {
+        for (params, pname) in [(None, "no parameters"), (Some(Value::Null), "null parameters"), (Some(json!({})), "empty parameters"), (Some(fit_strict.clone()), "parameters that fit a success"), (Some(fit_allopt.clone()), "parameters that fit another success")] {
+            for cont in [None, Some(true)] {
+                let mut members: Vec<(&str, Value)> = vec![("error", odd.clone())];
+                if let Some(p) = &params {
+                    members.push(("parameters", p.clone()));
+                }
+                if let Some(c) = cont {
+                    members.push(("continues", json!(c)));
+                }
+                for order in permutations(members.len()) {
+                    out.push(Frame { text: object_in_order(&members, &order), has_error: true, error_name: None, what: format!("an error member that is {oddname}, {pname}; continues={cont:?}") });
+                }
+            }
+        }
+    }
     for (err, params, what) in shapes {
         for cont in [None, Some(true), Some(false)] {
             let mut members: Vec<(&str, Value)> = Vec::new();
@@ -464,6 +483,9 @@ fn one(fr: &[Frame], i: u64, sink: &mut Sink<'_>) {
     };
     if f.has_error {
         sink.goal("reply-with-error-member");
+        if f.error_name.is_none() {
+            sink.goal("error-member-that-is-not-a-string");
+        }
         if f.text.contains("\\u0065rror") {
             sink.goal("error-member-spelled-with-an-escape");
         }
@@ -497,7 +519,7 @@ fn one(fr: &[Frame], i: u64, sink: &mut Sink<'_>) {
 pub fn run(tier: Tier) -> i32 {
     let mut rep = Report::new("C04", tier.name());
     let (fr, nbase) = all_frames();
-    rep.rule = format!("complete product: {} reply frames ({nbase} base frames + each extended by one character or bulked up to 300/1100/2100/4700 bytes in up to four meaning-preserving ways: whitespace, an unknown member in front / at the end, a long string parameter; + each with its member names spelled with JSON escapes; base frames: success / declared unit and struct errors with right, wrong-typed, missing, extra, absent parameters / undeclared errors / the six org.varlink.service errors with and without their parameters / error replies whose parameters fit the expected success type; x continues absent|true|false x every member order) x 5 expected parameter types x 4 error types (derived, derived with lifetime, empty enum, derived for an interface named org.varlink.services) x {{receive_reply, call_method, receive_reply as the second frame of one arrival, receive_reply right after a reply with continues:true, a generated proxy method}}. Distinct = distinct (frame, types, classification)", fr.len());
+    rep.rule = format!("complete product: {} reply frames ({nbase} base frames + each extended by one character or bulked up to 300/1100/2100/4700 bytes in up to four meaning-preserving ways: whitespace, an unknown member in front / at the end, a long string parameter; + each with its member names spelled with JSON escapes; base frames: success / declared unit and struct errors with right, wrong-typed, missing, extra, absent parameters / undeclared errors / the six org.varlink.service errors with and without their parameters / error replies whose parameters fit the expected success type / an `error` member that is not a string (null, a number, a boolean, an object, an array) with absent, null, empty and success-fitting parameters; x continues absent|true|false x every member order) x 5 expected parameter types x 4 error types (derived, derived with lifetime, empty enum, derived for an interface named org.varlink.services) x {{receive_reply, call_method, receive_reply as the second frame of one arrival, receive_reply right after a reply with continues:true, a generated proxy method}}. Distinct = distinct (frame, types, classification)", fr.len());
     rep.assumptions = vec![
         "an error type recognises a reply whose error name is one of its declared variants and whose parameters are exactly the variant's fields with values of the right types (none for a field-less variant: absent, null or {}); likewise for the six standard errors. This is decided from the reply's JSON value, not with the library's decoders; members of the reply other than error and parameters (continues, unknown ones) do not matter. Where the parameters are ill-formed or have surplus members the statement leaves room: there a reply counts as recognised iff serde_json decodes the frame as the error type".into(),
         "a standard error is one whose name is in org.varlink.service and which decodes as varlink_service::Error; ill-formed ones must simply not be a success".into(),
@@ -506,6 +528,7 @@ pub fn run(tier: Tier) -> i32 {
     rep.require_goal("error-reply-whose-parameters-fit-the-success-type");
     rep.require_goal("long-error-reply-whose-parameters-fit-the-success-type");
     rep.require_goal("error-member-spelled-with-an-escape");
+    rep.require_goal("error-member-that-is-not-a-string");
     let cfg = Config { max_wall: std::time::Duration::from_secs(tier.pick(60, 600)), ..Default::default() };
     let n = fr.len() as u64 * NP as u64 * NE as u64 * PATHS.len() as u64;
     rep.add(sweep("product", n, &cfg, |i, s| one(&fr, i, s)));
